@@ -227,10 +227,10 @@ def run(ctx):
         for _ in range(150000):
             strings.append("".join(rng.choice(FRAGS) for _ in range(4)))
     # (b) random documents (structured) -- also used for the rendering oracle below
-    docs = [gen_document(rng) for _ in range(1500 if tier == "quick" else 60000)]
+    docs = [gen_document(rng) for _ in range(1500 if tier == "quick" else 240000)]
     strings += [d[0] for d in docs]
     # (c) mostly-valid longer random concatenations
-    for _ in range(1500 if tier == "quick" else 60000):
+    for _ in range(1500 if tier == "quick" else 240000):
         strings.append("".join(rng.choice(FRAGS) for _ in range(rng.randint(5, 14))))
     strings = list(dict.fromkeys(strings))
     ctx.generators["fragment_concatenations"] = {"alphabet": len(FRAGS), "k<=2_exhaustive": n_exh2, "k=3": len(k3), "total_distinct": len(strings)}
